@@ -227,6 +227,16 @@ Proof.
 Qed.
 Print Assumptions C03_500_not_escape.
 
+(* With config.catchall = False the except clause of wsgi() re-raises: a request that
+   never reaches it is answered exactly as with catchall = True; otherwise the exception
+   leaves Ombott.wsgi and start_response has not been called at all (the server answers). *)
+Theorem C03_catchall_off :
+  forall env eh p,
+    wsgi_nocatch env eh p = wsgi env eh p
+    \/ exists ev, wsgi_nocatch env eh p = WsEscaped ev /\ count is_start ev = 0.
+Proof. exact wsgi_nocatch_cases. Qed.
+Print Assumptions C03_catchall_off.
+
 (* ---- hooks ---- *)
 
 (* [ran hs] = number of hooks of hs (in call order) that get called: up to and
